@@ -2,6 +2,7 @@ import DinoProofs.Lemmas.Regrid
 import DinoProofs.Lemmas.RegridCyclic
 import Dino.RegridDrv
 import Mathlib.Data.Rat.Floor
+import Mathlib.Data.List.Range
 import Mathlib.Order.Monotone.Defs
 import Mathlib.Order.Interval.Set.Defs
 import Mathlib.Analysis.SpecialFunctions.Trigonometric.Basic
@@ -27,11 +28,28 @@ the correspondence check; not to be counted as proved properties): the first con
 `noskip_nan_iff` (the `jnp.where(jnp.isclose(...))` decision rule).
 
 Hypotheses that the code does not check and that the claim must name:
-`regridHybridToSigma_conservation` needs the hybrid boundaries `a / sp + b` to be sorted (`hs`) —
-true of `a`, `b` sets whose pressure increases with the index at that surface pressure — and the
-σ boundaries sorted (`ht`); the longitude statements need the cell-width condition
-`gs + gt ≤ P/2` (outside it the code is *not* conservative: `stated_precondition_insufficient`,
-known finding `lon-conservation-wide-cells`).
+* latitude: the points lie inside `[-hp, hp]` = `[-π/2, π/2]` (`hbs`, `hbt`; `sin` is only
+  monotone there);
+* longitude: the cell-width condition on the *largest circular gaps*, `gs + gt ≤ P/2` (outside it
+  the code *need not be* conservative: `stated_precondition_insufficient`, known finding
+  `lon-conservation-wide-cells`; some pairs outside the domain are conserved all the same); for
+  equispaced grids this is `1/n_s + 1/n_t ≤ 1/2` (`lonWeights_conservative_equispaced`); and `hmd`:
+  `%` reduces into `[0, P)` by an integer number of periods.  `hmd` is proved for the exact `%`
+  (`pyModRat_reduces`); the floating-point `%` can return `P` itself (`-1e-20 % (2π) == 2π`), so
+  for floats `hmd` is a hypothesis about the arithmetic, outside the theorems;
+* vertical (`vertical_conservation`, `regridHybridToSigma_conservation`): the thickness-weighted
+  sum is conserved *over the covered range only* (weights `covered`), for every output that agrees
+  with `weights @ x` on the rows with non-zero overlap (`AgreesWhereCovered`; the other rows are
+  `0/0` in the code), and both bound vectors must be sorted: the hybrid boundaries `a / sp + b`
+  (`hs`) — true of `a`, `b` sets whose pressure increases with the index at that surface pressure —
+  and the σ boundaries (`ht`).  For unsorted hybrid boundaries nothing is claimed;
+* the two-dimensional statements `horizontal_conservation`, `regridWith_no_nan`,
+  `regridWith_conservation` are conditional: on weight matrices that conserve the two
+  one-dimensional sums and on a field without NaN whose shape fits the rows.  The statement from
+  the coordinate vectors alone, about the entry point `regrid`, is `regrid_conservation`
+  (`regrid_constant` for constants): there the only length hypotheses are about the caller's field
+  (`latWeights_shape`, `lonWeights_shape` give the row lengths);
+* `skipna_nan_iff` needs non-negative weights, `value_is_weighted_mean` needs `atol + rtol < 1`.
 
 Totalised division never makes a statement true: every normalisation is accompanied by the
 hypothesis (or the proof) that the row sum is not zero, and the vertical statements quantify over
@@ -255,7 +273,9 @@ example : ∃ W, latWeights (id : ℚ → ℚ) 1 [-1 / 2, 0, 3 / 4] [-1 / 4, 1 /
 
 /-! ## T16.2 convex combinations -/
 
-/-- rows summing to one reproduce constants -/
+/-- rows summing to one reproduce constants.  The length of the rows is a hypothesis here (`dot`
+ truncates to the shorter list); `latWeights_shape` / `lonWeights_shape` discharge it for the
+ weights of the code: `latWeights_constants_bounds`, `lonWeights_constants_bounds`. -/
 theorem constants_reproduced (W : List (List K)) (n : Nat) (c : K)
     (h : ∀ row ∈ W, row.sum = 1 ∧ row.length = n) :
     matvec W (List.replicate n c) = W.map fun _ => c := by
@@ -274,7 +294,8 @@ theorem row_within_bounds {lo hi : K} {w x : List K} (hsum : w.sum = 1)
   rwa [hsum, one_mul, one_mul] at this
 
 /-- every output of a weight matrix with such rows is within the bounds of the overlapping
- inputs -/
+ inputs.  `Forall₂` contains the hypothesis `row.length = x.length`; `matvec_within_bounds` states
+ it explicitly and `latWeights_constants_bounds` / `lonWeights_constants_bounds` discharge it. -/
 theorem output_within_bounds {lo hi : K} (W : List (List K)) (x : List K)
     (h : ∀ row ∈ W, row.sum = 1 ∧
       List.Forall₂ (fun wi xi => 0 ≤ wi ∧ (wi ≠ 0 → lo ≤ xi ∧ xi ≤ hi)) row x) :
@@ -708,7 +729,8 @@ theorem lonCells_partition (md : K → K → K) {P : K} (hP : 0 < P) (p0 p1 : K)
 
 /-- **Longitude, from the coordinate vectors.**  Source and target longitudes in `[0, P)`, strictly
  increasing, at least two each, with circular gaps at most `gs` resp. `gt`, `gs + gt ≤ P/2`
- (for equispaced grids: `1/n_s + 1/n_t ≤ 1/2`).  Then `conservative_longitude_weights` succeeds,
+ (for equispaced grids: `1/n_s + 1/n_t ≤ 1/2`, see `lonWeights_conservative_equispaced`).  Then
+ `conservative_longitude_weights` succeeds,
  its entries are non-negative, its rows sum to one, the cells of each grid tile one period, and
  the width-weighted sum is conserved. -/
 theorem lonWeights_conservative_of_points (md : K → K → K) {P : K} (hP : 0 < P)
@@ -886,7 +908,8 @@ theorem lonWeights_offset_rotate (md : K → K → K) (P : K) (src tgt qs qt : L
 /-- **Longitude, from the coordinate vectors of offset grids.**  Source and target longitudes
  strictly increasing, at least two each, each spanning less than a period — anywhere on the real
  line, so `% period` may rotate them — with circular gaps at most `gs` resp. `gt`,
- `gs + gt ≤ P/2` (for equispaced grids with any `longitude_offset`: `1/n_s + 1/n_t ≤ 1/2`), and
+ `gs + gt ≤ P/2` (for equispaced grids with any `longitude_offset`: `1/n_s + 1/n_t ≤ 1/2`,
+ proved as `lonWeights_conservative_equispaced`), and
  `%` the reduction into `[0, P)` by an integer number of periods.  Then
  `conservative_longitude_weights` succeeds, its entries are non-negative, its rows sum to one, the
  cells of each grid tile one period, and the width-weighted sum is conserved. -/
@@ -1128,7 +1151,9 @@ theorem value_is_weighted_mean (rtol atol : K) (htol : atol + rtol < 1) (skipna 
 /-! ## end to end -/
 
 /-- On a field without NaN, `__call__` returns `_mean(field)` in both `skipna` modes
- (rows summing to one, complete rows, non-negative tolerances). -/
+ (rows summing to one, complete rows — the lengths of the rows must fit the field —, non-negative
+ tolerances).  `regrid_conservation` discharges the length hypotheses for the weights the code
+ computes from the coordinate vectors. -/
 theorem regridWith_no_nan (rtol atol : K) (hr : 0 ≤ rtol) (ha : 0 ≤ atol) (skipna : Bool)
     (lw tw : List (List K)) (F : List (List K))
     (hl : ∀ ra ∈ lw, ra.sum = 1 ∧ ra.length = F.length)
@@ -1210,5 +1235,409 @@ example : ∃ lw tw : List (List ℚ),
     (src := [-1 / 2, 0, 3 / 4]) (tgt := [-1 / 4, 1 / 2]) (by decide +kernel) (by decide +kernel)
     (by decide +kernel) (by decide +kernel)
   exact ⟨lw, tw, h1, h2, fun f => horizontal_conservation lw tw _ _ _ _ hcl hct f⟩
+
+/-! ## shapes: the statements above without hidden length hypotheses -/
+
+theorem length_mids (x : List K) : (mids x).length = x.length - 1 := by
+  induction x with
+  | nil => rfl
+  | cons a t ih =>
+    cases t with
+    | nil => rfl
+    | cons b t => simp only [mids, List.length_cons] at ih ⊢; omega
+
+theorem length_cells (x : List K) : (cells x).length = x.length - 1 := by
+  induction x with
+  | nil => rfl
+  | cons a t ih =>
+    cases t with
+    | nil => rfl
+    | cons b t => simp only [cells, List.length_cons] at ih ⊢; omega
+
+theorem length_latCells (hp : K) (x : List K) (hx : x ≠ []) :
+    (cells (latBounds hp x)).length = x.length := by
+  rw [length_cells]
+  simp only [latBounds, List.length_cons, List.length_append, length_mids, List.length_nil]
+  have : 0 < x.length := List.length_pos_iff.mpr hx
+  omega
+
+theorem length_lonCells (md : K → K → K) (P : K) (x : List K) :
+    (lonCells md P x).length = x.length := by
+  simp [lonCells, length_lowerBounds, length_upperBounds]
+
+/-- **Shape of `conservative_latitude_weights`**: `(target, source)`. -/
+theorem latWeights_shape (g : K → K) (hp : K) {src tgt : List K} {W : List (List K)}
+    (hW : latWeights g hp src tgt = some W) :
+    (tgt ≠ [] → W.length = tgt.length) ∧ (src ≠ [] → ∀ row ∈ W, row.length = src.length) := by
+  unfold latWeights at hW
+  split_ifs at hW with hinc
+  cases hW
+  refine ⟨fun ht => ?_, fun hs row hrow => ?_⟩
+  · simp only [normRows, latOverlap, boundsOverlap, kmat, List.length_map]
+    exact length_latCells hp tgt ht
+  · simp only [normRows, latOverlap, boundsOverlap, kmat, List.mem_map] at hrow
+    obtain ⟨r, ⟨t, _, rfl⟩, rfl⟩ := hrow
+    simp only [List.length_map]
+    exact length_latCells hp src hs
+
+/-- **Shape of `conservative_longitude_weights`**: `(target, source)`, no hypothesis. -/
+theorem lonWeights_shape (md : K → K → K) (P : K) {src tgt : List K} {W : List (List K)}
+    (hW : lonWeights md P src tgt = some W) :
+    W.length = tgt.length ∧ ∀ row ∈ W, row.length = src.length := by
+  unfold lonWeights at hW
+  split_ifs at hW with hinc
+  cases hW
+  refine ⟨?_, fun row hrow => ?_⟩
+  · simp only [normRows, lonOverlap, kmat, List.length_map]
+    exact length_lonCells md P tgt
+  · simp only [normRows, lonOverlap, kmat, List.mem_map] at hrow
+    obtain ⟨r, ⟨t, _, rfl⟩, rfl⟩ := hrow
+    simp only [List.length_map]
+    exact length_lonCells md P src
+
+
+/-! ### the corollaries without a length hypothesis on the rows -/
+
+/-- `output_within_bounds` with the `Forall₂` replaced by what the caller controls: the length of
+ the input vector, and bounds on the inputs that carry weight -/
+theorem matvec_within_bounds {lo hi : K} (W : List (List K)) (x : List K)
+    (hW : ∀ row ∈ W, (∀ w ∈ row, 0 ≤ w) ∧ row.sum = 1 ∧ row.length = x.length)
+    (hx : ∀ row ∈ W, ∀ p ∈ row.zip x, p.1 ≠ 0 → lo ≤ p.2 ∧ p.2 ≤ hi) :
+    ∀ o ∈ matvec W x, lo ≤ o ∧ o ≤ hi := by
+  apply output_within_bounds W x
+  intro row hrow
+  obtain ⟨h1, h2, h3⟩ := hW row hrow
+  refine ⟨h2, List.forall₂_iff_zip.mpr ⟨h3, ?_⟩⟩
+  intro a b hab
+  exact ⟨h1 a (List.of_mem_zip hab).1, fun hne => hx row hrow (a, b) hab hne⟩
+
+/-- **Latitude weights: constants and bounds, from the coordinate vectors.**  For admissible
+ non-empty latitudes the weight matrix has the shape `(target, source)`, so a constant vector *of
+ the source length* is mapped to the constant vector of the target length, and every output lies
+ within the bounds of the inputs that carry weight (in particular within `[min x, max x]`). -/
+theorem latWeights_constants_bounds (g : K → K) {hp : K} (hhp : 0 < hp)
+    (hg : StrictMonoOn g (Set.Icc (-hp) hp)) {src tgt : List K} {W : List (List K)}
+    (hW : latWeights g hp src tgt = some W) (hsne : src ≠ []) (htne : tgt ≠ [])
+    (hbs : ∀ v ∈ src, -hp ≤ v ∧ v ≤ hp) (hbt : ∀ v ∈ tgt, -hp ≤ v ∧ v ≤ hp) :
+    (∀ c : K, matvec W (List.replicate src.length c) = List.replicate tgt.length c) ∧
+    ∀ (lo hi : K) (x : List K), x.length = src.length →
+      (∀ row ∈ W, ∀ p ∈ row.zip x, p.1 ≠ 0 → lo ≤ p.2 ∧ p.2 ≤ hi) →
+      ∀ o ∈ matvec W x, lo ≤ o ∧ o ≤ hi := by
+  obtain ⟨hlen, hrowlen⟩ := latWeights_shape g hp hW
+  have hsum := latWeights_rows_sum_one g hhp hg hW hbs hbt
+  have hnn := latWeights_nonneg g hhp hg hW hbs hbt
+  refine ⟨fun c => ?_, fun lo hi x hx hb => ?_⟩
+  · rw [constants_reproduced W src.length c (fun row hrow => ⟨hsum row hrow, hrowlen hsne row hrow⟩),
+      ← hlen htne]
+    exact List.map_const'
+  · exact matvec_within_bounds W x
+      (fun row hrow => ⟨hnn row hrow, hsum row hrow, by rw [hrowlen hsne row hrow, hx]⟩) hb
+
+/-- **Longitude weights: constants and bounds, from the coordinate vectors.**  Whenever the rows
+ are non-negative and sum to one (e.g. under the hypotheses of
+ `lonWeights_conservative_of_offset_points`), a constant vector of the source length is mapped to
+ the constant vector of the target length and every output lies within the bounds of the inputs
+ that carry weight. -/
+theorem lonWeights_constants_bounds (md : K → K → K) (P : K) {src tgt : List K} {W : List (List K)}
+    (hW : lonWeights md P src tgt = some W)
+    (hrows : ∀ row ∈ W, (∀ w ∈ row, 0 ≤ w) ∧ row.sum = 1) :
+    (∀ c : K, matvec W (List.replicate src.length c) = List.replicate tgt.length c) ∧
+    ∀ (lo hi : K) (x : List K), x.length = src.length →
+      (∀ row ∈ W, ∀ p ∈ row.zip x, p.1 ≠ 0 → lo ≤ p.2 ∧ p.2 ≤ hi) →
+      ∀ o ∈ matvec W x, lo ≤ o ∧ o ≤ hi := by
+  obtain ⟨hlen, hrowlen⟩ := lonWeights_shape md P hW
+  refine ⟨fun c => ?_, fun lo hi x hx hb => ?_⟩
+  · rw [constants_reproduced W src.length c (fun row hrow => ⟨(hrows row hrow).2, hrowlen row hrow⟩),
+      ← hlen]
+    exact List.map_const'
+  · exact matvec_within_bounds W x
+      (fun row hrow => ⟨(hrows row hrow).1, (hrows row hrow).2, by rw [hrowlen row hrow, hx]⟩) hb
+
+
+/-! ### `ConservativeRegridder(source, target)(field)` from the coordinate vectors -/
+
+/-- **End to end, from the coordinate vectors** (`regrid`, the model of
+ `ConservativeRegridder(source_grid, target_grid, skipna)(field)`).  Longitudes as in
+ `lonWeights_conservative_of_offset_points`, latitudes as in `latWeights_conservative` (non-empty),
+ `%` the reduction into `[0, P)`, `g` strictly increasing on `[-hp, hp]`, non-negative
+ tolerances, and a field without NaN *of the shape of the source grid* (`[lon][lat]`: the only
+ length hypotheses, and they are about the caller's field, not about the weight matrices).
+ Then the constructor succeeds, the output has no NaN and the shape of the target grid, and the
+ area-weighted integral `Σ width_lon · (g(lat_hi) − g(lat_lo)) · value` is conserved, in both
+ `skipna` modes. -/
+theorem regrid_conservation (md : K → K → K) (g : K → K) {P hp : K} (hP : 0 < P) (hhp : 0 < hp)
+    (hmd : ∀ v, ∃ n : ℤ, md v P = v - n * P ∧ 0 ≤ md v P ∧ md v P < P)
+    (hg : StrictMonoOn g (Set.Icc (-hp) hp))
+    (rtol atol : K) (hr : 0 ≤ rtol) (ha : 0 ≤ atol) (skipna : Bool)
+    (s0 s1 t0 t1 : K) (sr tr : List K) (gs gt : K)
+    (hs : (s0 :: s1 :: sr).Pairwise (· < ·)) (ht : (t0 :: t1 :: tr).Pairwise (· < ·))
+    (hsp : sr.getLastD s1 - s0 < P) (htp : tr.getLastD t1 - t0 < P)
+    (hgs : ∀ d ∈ diffs (s0 :: s1 :: sr), d ≤ gs) (hws : P - (sr.getLastD s1 - s0) ≤ gs)
+    (hgt : ∀ d ∈ diffs (t0 :: t1 :: tr), d ≤ gt) (hwt : P - (tr.getLastD t1 - t0) ≤ gt)
+    (hgg : gs + gt ≤ P / 2)
+    {latS latT : List K} (hls : latS.Pairwise (· < ·)) (hlt : latT.Pairwise (· < ·))
+    (hbs : ∀ v ∈ latS, -hp ≤ v ∧ v ≤ hp) (hbt : ∀ v ∈ latT, -hp ≤ v ∧ v ≤ hp)
+    (hsne : latS ≠ []) (htne : latT ≠ [])
+    (F : List (List K)) (hF : F.length = (s0 :: s1 :: sr).length)
+    (hFb : ∀ fb ∈ F, fb.length = latS.length) :
+    ∃ out : List (List K),
+      regrid md g hp P rtol atol skipna (s0 :: s1 :: sr) (t0 :: t1 :: tr) latS latT
+          (F.map (·.map some)) = some (out.map (·.map some)) ∧
+      out.length = (t0 :: t1 :: tr).length ∧ (∀ row ∈ out, row.length = latT.length) ∧
+      dot ((lonCells md P (t0 :: t1 :: tr)).map fun c => c.2 - c.1)
+          (out.map fun row => dot (diffs ((latBounds hp latT).map g)) row)
+        = dot ((lonCells md P (s0 :: s1 :: sr)).map fun c => c.2 - c.1)
+          (F.map fun fb => dot (diffs ((latBounds hp latS).map g)) fb) := by
+  obtain ⟨lw, hlw, hlrows, -, -, hcl⟩ := lonWeights_conservative_of_offset_points md hP hmd
+    s0 s1 t0 t1 sr tr gs gt hs ht hsp htp hgs hws hgt hwt hgg
+  obtain ⟨tw, htw, htrows, hct⟩ := latWeights_conservative g hhp hg hls hlt hbs hbt
+  obtain ⟨hlwlen, hlwrow⟩ := lonWeights_shape md P hlw
+  obtain ⟨htwlen, htwrow⟩ := latWeights_shape g hp htw
+  have hl : ∀ ra ∈ lw, ra.sum = 1 ∧ ra.length = F.length := fun ra hra =>
+    ⟨(hlrows ra hra).2, by rw [hlwrow ra hra, hF]⟩
+  have ht' : ∀ rc ∈ tw, rc.sum = 1 ∧ ∀ fb ∈ F, fb.length = rc.length := fun rc hrc =>
+    ⟨(htrows rc hrc).2, fun fb hfb => by rw [htwrow hsne rc hrc, hFb fb hfb]⟩
+  refine ⟨mean2 lw tw F, ?_, ?_, ?_, horizontal_conservation lw tw _ _ _ _ hcl hct F⟩
+  · unfold regrid
+    rw [hlw, htw]
+    simp only
+    rw [regridWith_no_nan rtol atol hr ha skipna lw tw F hl ht']
+  · simp only [mean2, List.length_map]; exact hlwlen
+  · intro row hrow
+    simp only [mean2, List.mem_map] at hrow
+    obtain ⟨ra, _, rfl⟩ := hrow
+    simp only [List.length_map]; exact htwlen htne
+
+/-- **Constants, end to end.**  Under the same hypotheses on the coordinate vectors, the constant
+ field of the shape of the source grid is mapped to the constant field of the shape of the target
+ grid (both `skipna` modes). -/
+theorem regrid_constant (md : K → K → K) (g : K → K) {P hp : K} (hP : 0 < P) (hhp : 0 < hp)
+    (hmd : ∀ v, ∃ n : ℤ, md v P = v - n * P ∧ 0 ≤ md v P ∧ md v P < P)
+    (hg : StrictMonoOn g (Set.Icc (-hp) hp))
+    (rtol atol : K) (hr : 0 ≤ rtol) (ha : 0 ≤ atol) (skipna : Bool)
+    (s0 s1 t0 t1 : K) (sr tr : List K) (gs gt : K)
+    (hs : (s0 :: s1 :: sr).Pairwise (· < ·)) (ht : (t0 :: t1 :: tr).Pairwise (· < ·))
+    (hsp : sr.getLastD s1 - s0 < P) (htp : tr.getLastD t1 - t0 < P)
+    (hgs : ∀ d ∈ diffs (s0 :: s1 :: sr), d ≤ gs) (hws : P - (sr.getLastD s1 - s0) ≤ gs)
+    (hgt : ∀ d ∈ diffs (t0 :: t1 :: tr), d ≤ gt) (hwt : P - (tr.getLastD t1 - t0) ≤ gt)
+    (hgg : gs + gt ≤ P / 2)
+    {latS latT : List K} (hls : latS.Pairwise (· < ·)) (hlt : latT.Pairwise (· < ·))
+    (hbs : ∀ v ∈ latS, -hp ≤ v ∧ v ≤ hp) (hbt : ∀ v ∈ latT, -hp ≤ v ∧ v ≤ hp)
+    (hsne : latS ≠ []) (htne : latT ≠ []) (c : K) :
+    regrid md g hp P rtol atol skipna (s0 :: s1 :: sr) (t0 :: t1 :: tr) latS latT
+        (List.replicate (s0 :: s1 :: sr).length (List.replicate latS.length (some c)))
+      = some (List.replicate (t0 :: t1 :: tr).length (List.replicate latT.length (some c))) := by
+  obtain ⟨lw, hlw, hlrows, -, -, -⟩ := lonWeights_conservative_of_offset_points md hP hmd
+    s0 s1 t0 t1 sr tr gs gt hs ht hsp htp hgs hws hgt hwt hgg
+  obtain ⟨tw, htw, htrows, -⟩ := latWeights_conservative g hhp hg hls hlt hbs hbt
+  obtain ⟨hlwlen, hlwrow⟩ := lonWeights_shape md P hlw
+  obtain ⟨htwlen, htwrow⟩ := latWeights_shape g hp htw
+  set n := (s0 :: s1 :: sr).length with hn
+  set F : List (List K) := List.replicate n (List.replicate latS.length c) with hFdef
+  have hFsome : List.replicate n (List.replicate latS.length (some c)) = F.map (·.map some) := by
+    simp [hFdef]
+  have hl : ∀ ra ∈ lw, ra.sum = 1 ∧ ra.length = F.length := fun ra hra =>
+    ⟨(hlrows ra hra).2, by rw [hlwrow ra hra, hFdef, List.length_replicate]⟩
+  have ht' : ∀ rc ∈ tw, rc.sum = 1 ∧ ∀ fb ∈ F, fb.length = rc.length := fun rc hrc =>
+    ⟨(htrows rc hrc).2, fun fb hfb => by
+      rw [htwrow hsne rc hrc, (List.mem_replicate.mp hfb).2, List.length_replicate]⟩
+  unfold regrid
+  rw [hlw, htw]
+  simp only
+  rw [hFsome, regridWith_no_nan rtol atol hr ha skipna lw tw F hl ht', hFdef,
+    mean2_constant lw tw n latS.length c
+      (fun row hrow => ⟨(hlrows row hrow).2, hlwrow row hrow⟩)
+      (fun row hrow => ⟨(htrows row hrow).2, htwrow hsne row hrow⟩)]
+  simp [List.map_const', hlwlen, htwlen htne]
+
+
+/-! ### non-vacuity of the NaN-free and end-to-end statements -/
+
+/-- non-vacuity of `regridWith_no_nan`: a 3 × 2 field, two longitude rows (one with a zero
+ weight), two latitude rows, `skipna=False` with the tolerances of the code; the output is the
+ weighted mean, a non-constant field -/
+example :
+    regridWith (1 / 1000 : ℚ) (1 / 100000000) false [[1 / 2, 1 / 2, 0], [0, 1 / 4, 3 / 4]]
+        [[1 / 3, 2 / 3], [1, 0]] (([[1, 2], [3, -4], [5, 6]] : List (List ℚ)).map (·.map some))
+      = (mean2 [[1 / 2, 1 / 2, 0], [0, 1 / 4, 3 / 4]] [[1 / 3, 2 / 3], [1, 0]]
+          ([[1, 2], [3, -4], [5, 6]] : List (List ℚ))).map (·.map some) ∧
+    mean2 [[1 / 2, 1 / 2, 0], [0, 1 / 4, 3 / 4]] [[1 / 3, 2 / 3], [1, 0]]
+        ([[1, 2], [3, -4], [5, 6]] : List (List ℚ)) = [[0, 2], [23 / 6, 9 / 2]] :=
+  ⟨regridWith_no_nan _ _ (by norm_num) (by norm_num) false _ _ _ (by decide +kernel)
+    (by decide +kernel), by decide +kernel⟩
+
+/-- non-vacuity of `noskip_not_nan_of_no_null`: one of the inputs *is* NaN, but it carries no
+ weight (third longitude row, weight 0): `skipna=False` returns the weighted mean `8/3` -/
+example :
+    cellValue (1 / 1000 : ℚ) (1 / 100000000) false
+        (cellMean [1 / 2, 1 / 2, 0] [1 / 3, 2 / 3] [[some 1, some 2], [some 3, some 4], [none, some 6]])
+        (cellFrac [1 / 2, 1 / 2, 0] [1 / 3, 2 / 3] [[some 1, some 2], [some 3, some 4], [none, some 6]])
+      = some (cellMean [1 / 2, 1 / 2, 0] [1 / 3, 2 / 3]
+          [[some 1, some 2], [some 3, some 4], [none, some 6]]) ∧
+    cellMean [1 / 2, 1 / 2, 0] [1 / 3, 2 / 3]
+        ([[some 1, some 2], [some 3, some 4], [none, some 6]] : List (List (Option ℚ))) = 8 / 3 :=
+  ⟨noskip_not_nan_of_no_null _ _ (by norm_num) (by norm_num) _ _ _ (by norm_num) (by norm_num)
+    (by decide) (by decide +kernel) (by unfold NoNull; decide +kernel), by decide +kernel⟩
+
+/-- non-vacuity of `regridWith_conservation`: the weights the code computes for the offset grids
+ of the example above (4 → 5 longitudes, the real `%`, period 12) and 3 → 2 latitudes (`g = id`,
+ `hp = 1`), a 4 × 3 field -/
+example : ∃ (lw tw : List (List ℚ)) (out : List (List ℚ)),
+    lonWeights pyModRat 12 [-6, -3, 0, 3] [7 / 2, 6, 8, 11, 14] = some lw ∧
+    latWeights id 1 [-1 / 2, 0, 3 / 4] [-1 / 4, 1 / 2] = some tw ∧
+    regridWith (1 / 1000) (1 / 100000000) true lw tw
+        (([[1, 2, 3], [4, -5, 6], [7, 8, 9], [0, 1, -1]] : List (List ℚ)).map (·.map some))
+      = out.map (·.map some) ∧
+    dot ((lonCells pyModRat (12 : ℚ) [7 / 2, 6, 8, 11, 14]).map fun c => c.2 - c.1)
+        (out.map fun row => dot (diffs ((latBounds 1 [-1 / 4, 1 / 2]).map id)) row)
+      = dot ((lonCells pyModRat (12 : ℚ) [-6, -3, 0, 3]).map fun c => c.2 - c.1)
+        (([[1, 2, 3], [4, -5, 6], [7, 8, 9], [0, 1, -1]] : List (List ℚ)).map fun fb =>
+          dot (diffs ((latBounds 1 [-1 / 2, 0, 3 / 4]).map id)) fb) := by
+  obtain ⟨lw, h1, hlr, _, _, hcl⟩ := lonWeights_conservative_of_offset_points pyModRat
+    (by norm_num : (0 : ℚ) < 12) (pyModRat_reduces (by norm_num))
+    (-6) (-3) (7 / 2) 6 [0, 3] [8, 11, 14] 3 3 (by decide +kernel) (by decide +kernel)
+    (by decide +kernel) (by decide +kernel) (by decide +kernel) (by decide +kernel)
+    (by decide +kernel) (by decide +kernel) (by norm_num)
+  obtain ⟨tw, h2, htr, hct⟩ := latWeights_conservative (id : ℚ → ℚ) one_pos strictMonoOn_id
+    (src := [-1 / 2, 0, 3 / 4]) (tgt := [-1 / 4, 1 / 2]) (by decide +kernel) (by decide +kernel)
+    (by decide +kernel) (by decide +kernel)
+  obtain ⟨out, h3, h4⟩ := regridWith_conservation (1 / 1000 : ℚ) (1 / 100000000) (by norm_num)
+    (by norm_num) true lw tw _ _ _ _ [[1, 2, 3], [4, -5, 6], [7, 8, 9], [0, 1, -1]]
+    (fun ra hra => ⟨(hlr ra hra).2, by rw [(lonWeights_shape _ _ h1).2 ra hra]; rfl⟩)
+    (fun rc hrc => ⟨(htr rc hrc).2, fun fb hfb => by
+      rw [(latWeights_shape _ _ h2).2 (by simp) rc hrc]
+      revert fb hfb; decide +kernel⟩) hcl hct
+  exact ⟨lw, tw, out, h1, h2, h3, h4⟩
+
+/-- non-vacuity of `regrid_conservation` / `regrid_constant`: the same grids, from the coordinate
+ vectors only (no weight matrix, no length of a row appears among the hypotheses) -/
+example : ∃ out : List (List ℚ),
+    regrid pyModRat id 1 12 (1 / 1000) (1 / 100000000) false [-6, -3, 0, 3] [7 / 2, 6, 8, 11, 14]
+        [-1 / 2, 0, 3 / 4] [-1 / 4, 1 / 2]
+        (([[1, 2, 3], [4, -5, 6], [7, 8, 9], [0, 1, -1]] : List (List ℚ)).map (·.map some))
+      = some (out.map (·.map some)) ∧
+    out.length = 5 ∧ (∀ row ∈ out, row.length = 2) ∧
+    dot ((lonCells pyModRat (12 : ℚ) [7 / 2, 6, 8, 11, 14]).map fun c => c.2 - c.1)
+        (out.map fun row => dot (diffs ((latBounds 1 [-1 / 4, 1 / 2]).map id)) row)
+      = dot ((lonCells pyModRat (12 : ℚ) [-6, -3, 0, 3]).map fun c => c.2 - c.1)
+        (([[1, 2, 3], [4, -5, 6], [7, 8, 9], [0, 1, -1]] : List (List ℚ)).map fun fb =>
+          dot (diffs ((latBounds 1 [-1 / 2, 0, 3 / 4]).map id)) fb) :=
+  regrid_conservation pyModRat id (by norm_num) one_pos (pyModRat_reduces (by norm_num))
+    strictMonoOn_id _ _ (by norm_num) (by norm_num) false
+    (-6) (-3) (7 / 2) 6 [0, 3] [8, 11, 14] 3 3 (by decide +kernel) (by decide +kernel)
+    (by decide +kernel) (by decide +kernel) (by decide +kernel) (by decide +kernel)
+    (by decide +kernel) (by decide +kernel) (by norm_num)
+    (by decide +kernel) (by decide +kernel) (by decide +kernel) (by decide +kernel)
+    (by simp) (by simp) _ (by decide) (by decide +kernel)
+
+example :
+    regrid pyModRat id 1 12 (1 / 1000 : ℚ) (1 / 100000000) true [-6, -3, 0, 3] [7 / 2, 6, 8, 11, 14]
+        [-1 / 2, 0, 3 / 4] [-1 / 4, 1 / 2] (List.replicate 4 (List.replicate 3 (some 7)))
+      = some (List.replicate 5 (List.replicate 2 (some 7))) :=
+  regrid_constant pyModRat id (by norm_num) one_pos (pyModRat_reduces (by norm_num))
+    strictMonoOn_id _ _ (by norm_num) (by norm_num) true
+    (-6) (-3) (7 / 2) 6 [0, 3] [8, 11, 14] 3 3 (by decide +kernel) (by decide +kernel)
+    (by decide +kernel) (by decide +kernel) (by decide +kernel) (by decide +kernel)
+    (by decide +kernel) (by decide +kernel) (by norm_num)
+    (by decide +kernel) (by decide +kernel) (by decide +kernel) (by decide +kernel)
+    (by simp) (by simp) 7
+
+/-! ## equispaced grids -/
+
+/-- the longitudes of an equispaced grid: `linspace(0, P, n, endpoint=False) + off`
+ (`Grid.longitudes` with `longitude_offset = off`) -/
+def equiPts (n : ℕ) (off P : K) : List K := (List.range n).map fun (i : ℕ) => off + (i : K) * (P / (n : K))
+
+theorem equiPts_decomp (m : ℕ) (off P : K) :
+    equiPts (m + 2) off P = off :: (off + P / ((m + 2 : ℕ) : K)) ::
+      (List.range m).map fun (i : ℕ) => off + ((i + 2 : ℕ) : K) * (P / ((m + 2 : ℕ) : K)) := by
+  unfold equiPts
+  rw [List.range_succ_eq_map, List.range_succ_eq_map]
+  simp [List.map_map, Function.comp_def]
+  intro a _; left; ring
+
+theorem equiPts_getLastD (m : ℕ) (off d : K) :
+    ((List.range m).map fun (i : ℕ) => off + ((i + 2 : ℕ) : K) * d).getLastD (off + d)
+      = off + ((m + 1 : ℕ) : K) * d := by
+  cases m with
+  | zero => simp
+  | succ k =>
+    rw [List.range_succ, List.map_append, List.map_singleton, List.getLastD_concat]
+
+theorem equiPts_pairwise (n : ℕ) (off : K) {d : K} (hd : 0 < d) :
+    ((List.range n).map fun (i : ℕ) => off + (i : K) * d).Pairwise (· < ·) := by
+  rw [List.pairwise_map]
+  apply List.pairwise_lt_range.imp
+  intro a b hab
+  have : (a : K) < b := by exact_mod_cast hab
+  nlinarith
+
+theorem equiPts_diffs (n : ℕ) (off d : K) :
+    ∀ x ∈ diffs ((List.range n).map fun (i : ℕ) => off + (i : K) * d), x ≤ d := by
+  rw [diffs_le_iff_isChain, List.isChain_map]
+  cases n with
+  | zero => simp
+  | succ k =>
+    rw [List.isChain_range_succ]
+    intro m _
+    push_cast
+    linarith
+
+/-- **Equispaced grids** (`Grid.longitudes`: `n` nodes `off + i·P/n`, any `longitude_offset`):
+ the hypotheses of `lonWeights_conservative_of_offset_points` hold with `gs = P/n_s`,
+ `gt = P/n_t` as soon as `1/n_s + 1/n_t ≤ 1/2` (both `≥ 4`, or 3 against `≥ 6`). -/
+theorem lonWeights_conservative_equispaced (md : K → K → K) {P : K} (hP : 0 < P)
+    (hmd : ∀ v, ∃ n : ℤ, md v P = v - n * P ∧ 0 ≤ md v P ∧ md v P < P)
+    (ns nt : ℕ) (hns : 2 ≤ ns) (hnt : 2 ≤ nt) (hn : (1 : K) / ns + 1 / nt ≤ 1 / 2) (os ot : K) :
+    ∃ W, lonWeights md P (equiPts ns os P) (equiPts nt ot P) = some W ∧
+      (∀ row ∈ W, (∀ w ∈ row, 0 ≤ w) ∧ row.sum = 1) ∧
+      ((lonCells md P (equiPts nt ot P)).map fun c => c.2 - c.1).sum = P ∧
+      ((lonCells md P (equiPts ns os P)).map fun c => c.2 - c.1).sum = P ∧
+      ∀ x : List K, dot ((lonCells md P (equiPts nt ot P)).map fun c => c.2 - c.1) (matvec W x)
+        = dot ((lonCells md P (equiPts ns os P)).map fun c => c.2 - c.1) x := by
+  obtain ⟨ms, rfl⟩ : ∃ m, ns = m + 2 := ⟨ns - 2, by omega⟩
+  obtain ⟨mt, rfl⟩ : ∃ m, nt = m + 2 := ⟨nt - 2, by omega⟩
+  have key : ∀ (m : ℕ) (off : K),
+      let d := P / ((m + 2 : ℕ) : K)
+      let sr := (List.range m).map fun (i : ℕ) => off + ((i + 2 : ℕ) : K) * d
+      (off :: (off + d) :: sr).Pairwise (· < ·) ∧ sr.getLastD (off + d) - off < P ∧
+      (∀ x ∈ diffs (off :: (off + d) :: sr), x ≤ d) ∧ P - (sr.getLastD (off + d) - off) ≤ d := by
+    intro m off d sr
+    have hm : (0 : K) < ((m + 2 : ℕ) : K) := by exact_mod_cast Nat.succ_pos _
+    have hd : 0 < d := div_pos hP hm
+    have hPd : P = ((m + 2 : ℕ) : K) * d := by simp only [d]; field_simp
+    have hdec := equiPts_decomp m off P
+    unfold equiPts at hdec
+    have hlast : sr.getLastD (off + d) = off + ((m + 1 : ℕ) : K) * d := equiPts_getLastD m off d
+    refine ⟨?_, ?_, ?_, ?_⟩
+    · rw [← hdec]; exact equiPts_pairwise _ off hd
+    · rw [hlast, hPd]; push_cast; linarith
+    · rw [← hdec]; exact equiPts_diffs _ off d
+    · rw [hlast]; nth_rewrite 1 [hPd]; push_cast; linarith
+  obtain ⟨hs, hsp, hgs, hws⟩ := key ms os
+  obtain ⟨ht, htp, hgt, hwt⟩ := key mt ot
+  rw [equiPts_decomp, equiPts_decomp]
+  apply lonWeights_conservative_of_offset_points md hP hmd _ _ _ _ _ _ _ _ hs ht hsp htp hgs hws hgt hwt
+  have : P / ((ms + 2 : ℕ) : K) + P / ((mt + 2 : ℕ) : K)
+      = P * (1 / ((ms + 2 : ℕ) : K) + 1 / ((mt + 2 : ℕ) : K)) := by ring
+  rw [this]
+  calc P * (1 / ((ms + 2 : ℕ) : K) + 1 / ((mt + 2 : ℕ) : K)) ≤ P * (1 / 2) :=
+        mul_le_mul_of_nonneg_left hn hP.le
+    _ = P / 2 := by ring
+
+/-- non-vacuity: 3 against 6 equispaced longitudes with offsets −1 and 25/2 on a circle of length
+ 12 (the boundary case `1/3 + 1/6 = 1/2`; the target points lie beyond one period), the real `%` -/
+example : ∃ W, lonWeights pyModRat (12 : ℚ) (equiPts 3 (-1) 12) (equiPts 6 (25 / 2) 12) = some W ∧
+    (∀ row ∈ W, (∀ w ∈ row, 0 ≤ w) ∧ row.sum = 1) ∧
+    ((lonCells pyModRat (12 : ℚ) (equiPts 6 (25 / 2) 12)).map fun c => c.2 - c.1).sum = 12 ∧
+    ((lonCells pyModRat (12 : ℚ) (equiPts 3 (-1) 12)).map fun c => c.2 - c.1).sum = 12 ∧
+    ∀ x : List ℚ, dot ((lonCells pyModRat (12 : ℚ) (equiPts 6 (25 / 2) 12)).map fun c => c.2 - c.1)
+        (matvec W x)
+      = dot ((lonCells pyModRat (12 : ℚ) (equiPts 3 (-1) 12)).map fun c => c.2 - c.1) x :=
+  lonWeights_conservative_equispaced pyModRat (by norm_num) (pyModRat_reduces (by norm_num)) 3 6
+    (by norm_num) (by norm_num) (by norm_num) _ _
+
+example : equiPts 3 (-1 : ℚ) 12 = [-1, 3, 7] ∧ equiPts 6 (25 / 2 : ℚ) 12 = [25 / 2, 29 / 2, 33 / 2, 37 / 2, 41 / 2, 45 / 2] := by
+  decide +kernel
 
 end Dino.C16
